@@ -12,4 +12,5 @@ CONSTANTS
   Hosts = {"h1", "h2", "h3"}
   MaxCalls = 2
   Locked = TRUE
+  SplitGet = FALSE
   Unique = FALSE
